@@ -17,7 +17,7 @@ try:
     demo_dst = os.path.join(wt, pkgdir, "zz_seeded_demo_test.go")
     shutil.copy(os.path.join(src, "demo_test.go"), demo_dst)
     def demo():
-        p = subprocess.run(["go", "test", "-vet=off", "-count=1", "-run", runpat, pkgdir], cwd=wt, env=env, capture_output=True, text=True)
+        p = subprocess.run(["go", "test", "-vet=off", "-count=1", "-run", runpat, pkgdir], cwd=wt, env=env, capture_output=True, text=True, errors="replace")
         return p.returncode, (p.stdout + p.stderr)[-600:]
     rc, out = demo(); res["demo_on_clean"] = "pass" if rc == 0 else "FAIL: " + out
     os.remove(demo_dst)
